@@ -325,7 +325,18 @@ def run(ctx: Ctx) -> None:
     if h is None:
         h = ast.ExceptHandler(type=None, name="error", body=[ast.Pass()])
     er = [c for c in ast.walk(h) if isinstance(c, ast.Call) and call_name(c) == "self._send_error_response"]
-    ok = len(er) == 1 and norm(arg(er[0], 0)) == f"{h.name}.error_status_hint" and ("self.connection.our_state in {h11.IDLE, h11.SEND_RESPONSE}", True) in guard_atoms(er[0], stop=h)
+    ok = len(er) == 1 and norm(arg(er[0], 0)) == f"{h.name}.error_status_hint"
+    if ok:
+        from ..astq import guards as _guards
+        from ..pred import eval_expr as _ev4
+
+        states4 = ["IDLE", "SEND_RESPONSE", "SEND_BODY", "DONE", "MUST_CLOSE", "CLOSED", "ERROR", "MIGHT_SWITCH_PROTOCOL", "SWITCHED_PROTOCOL"]
+        env4 = {f"h11.{s_}": s_ for s_ in states4}
+        try:
+            table4 = {s_: all(bool(_ev4(t_, {**env4, "self.connection.our_state": s_})) == p_ for t_, p_ in _guards(er[0], stop=h)) for s_ in states4}
+        except Exception:
+            table4 = {}
+        ok = table4 == {s_: s_ in ("IDLE", "SEND_RESPONSE") for s_ in states4}
     ctx.check("C04.R4", "protocol.h11:H11Protocol._handle_events", "RemoteProtocolError -> error response with error_status_hint while our_state in {IDLE, SEND_RESPONSE}", ok, "malformed HTTP/1 must be answered with the hinted 4xx only when a response can still be started", h)
     cl = [c for c in ast.walk(h) if isinstance(c, ast.Call) and call_name(c) == "self.send" and "Closed()" in norm(c)]
     ok = len(cl) == 1 and not guard_atoms(cl[0], stop=h) and isinstance(h.body[-1], ast.Break)
